@@ -46,3 +46,6 @@ REGISTRY['C09'] = _staged(('values', props_values.run), ('histories', props_cach
 
 import props_diagram
 REGISTRY['C20'] = props_diagram.run
+
+import props_env
+REGISTRY['C16'] = props_env.run
